@@ -8,6 +8,79 @@ are Python values (bool / int / str tokens / None for a null pointer); UNK is "a
 from engine.cfg import strip_casts
 from engine.facts import call_args
 
+class Lin(object):
+    """a linear form  c0 + sum(ci * xi)  over named symbols (hashable, immutable)"""
+    __slots__ = ("t", "c")
+
+    def __init__(self, terms=(), c=0):
+        d = {}
+        for k, v in (terms.items() if isinstance(terms, dict) else terms):
+            if v:
+                d[k] = d.get(k, 0) + v
+        self.t = tuple(sorted((k, v) for k, v in d.items() if v))
+        self.c = c
+
+    @staticmethod
+    def sym(name):
+        return Lin({name: 1})
+
+    @staticmethod
+    def of(v):
+        if isinstance(v, Lin):
+            return v
+        if isinstance(v, bool):
+            return None
+        if isinstance(v, int):
+            return Lin((), v)
+        return None
+
+    def __add__(self, o):
+        d = dict(self.t)
+        for k, v in o.t:
+            d[k] = d.get(k, 0) + v
+        return Lin(d, self.c + o.c)
+
+    def __neg__(self):
+        return Lin({k: -v for k, v in self.t}, -self.c)
+
+    def __sub__(self, o):
+        return self + (-o)
+
+    def scale(self, n):
+        return Lin({k: v * n for k, v in self.t}, self.c * n)
+
+    def __eq__(self, o):
+        return isinstance(o, Lin) and self.t == o.t and self.c == o.c
+
+    def __hash__(self):
+        return hash((self.t, self.c))
+
+    def __bool__(self):
+        return True
+
+    def __repr__(self):
+        parts = ["%s%s" % ("" if v == 1 else "%d*" % v, k) for k, v in self.t]
+        if self.c or not parts:
+            parts.append(str(self.c))
+        return " + ".join(parts).replace("+ -", "- ")
+
+
+def _arith(op, x, y):
+    a, b = Lin.of(x), Lin.of(y)
+    if a is None or b is None:
+        return ANY
+    if op == "+":
+        return a + b
+    if op == "-":
+        return a - b
+    if op == "*":
+        if not a.t:
+            return b.scale(a.c)
+        if not b.t:
+            return a.scale(b.c)
+    return ANY
+
+
 ANY = "?"                          # a value the world does not fix
 UNK = frozenset([ANY])
 TRANSPARENT = ("ParenExpr", "ExprWithCleanups", "ImplicitCastExpr", "MaterializeTemporaryExpr", "CXXBindTemporaryExpr",
@@ -22,10 +95,12 @@ def truth(vals):
 
 
 class World(object):
-    def __init__(self, f, atom):
-        """atom(e) -> iterable of possible values of (cast-stripped) expression e in this world, or None"""
+    def __init__(self, f, atom, effect=None):
+        """atom(e) -> iterable of possible values of (cast-stripped) expression e in this world, or None;
+        effect(e, env) may update the tracked variables of run_env after element e was evaluated (out-parameters)"""
         self.f = f
         self.atom = atom
+        self.effect = effect
 
     def ev(self, e):
         e = strip_casts(e)
@@ -65,6 +140,9 @@ class World(object):
                 else:
                     out |= {True} if x else set(b)
             return frozenset(out)
+        if k == "BinaryOperator" and e.get("op") in ("+", "-", "*"):
+            a, b = self.ev(e["c"][0]), self.ev(e["c"][1])
+            return frozenset(ANY if (x == ANY or y == ANY) else _arith(e["op"], x, y) for x in a for y in b)
         if k == "BinaryOperator" and e.get("op") in ("==", "!="):
             a, b = self.ev(e["c"][0]), self.ev(e["c"][1])
             out = set()
@@ -197,6 +275,7 @@ class World(object):
         self.atom = atom
         rets = set()
         self.reached_elems = set()
+        self.ret_envs = []
         try:
             seen = set()
             stack = [(cfg.entry, ())]
@@ -223,15 +302,26 @@ class World(object):
                         l = strip_casts(a[0])
                         if l is not None and l["k"] == "DeclRefExpr" and l.get("d") in track:
                             env[l["d"]] = self.ev(a[1])
+                    elif e["k"] == "CompoundAssignOperator" and e.get("op") in ("+=", "-=", "*=") and \
+                            strip_casts(e["c"][0]) is not None and strip_casts(e["c"][0])["k"] == "DeclRefExpr" and \
+                            strip_casts(e["c"][0]).get("d") in track:
+                        d_ = strip_casts(e["c"][0]).get("d")
+                        cur = env.get(d_, UNK)
+                        rhs = self.ev(e["c"][1])
+                        env[d_] = frozenset(ANY if (x == ANY or y == ANY) else _arith(e["op"][0], x, y) for x in cur for y in rhs)
                     elif e["k"] == "CompoundAssignOperator" or (e["k"] == "UnaryOperator" and e.get("op") in ("++", "--")):
                         for y in e.get("c", [])[:1]:
                             y = strip_casts(y)
                             if y is not None and y["k"] == "DeclRefExpr" and y.get("d") in track:
                                 env[y["d"]] = UNK
                     elif e["k"] == "ReturnStmt":
-                        rets |= set(self.ev(e["c"][0])) if e.get("c") and e["c"][0] is not None else {None}
+                        rv = set(self.ev(e["c"][0])) if e.get("c") and e["c"][0] is not None else {None}
+                        rets |= rv
+                        self.ret_envs.append((frozenset(rv), dict(env)))
                         done = True
                         break
+                    if self.effect is not None:
+                        self.effect(e, env)
                 if done:
                     continue
                 succs = self.feasible_succs(b)
